@@ -59,8 +59,8 @@ inline void field_mutations(const Enc& e, size_t fi, bool all_prefixes, std::vec
 // Val-level single defects: the mutated value is encoded by the reference encoder (which does not validate),
 // so the payload matches the corrupted length/count and exactly one rule is broken.
 struct ValMutator {
-  Rng& r; int target; int seen = 0; bool done = false; std::string desc;
-  ValMutator(Rng& rng, int tgt) : r(rng), target(tgt) {}
+  Rng& r; int target; int variant; int seen = 0; bool done = false; std::string desc;   // variant: -1 = random, else forces the mode of capacity mutations
+  ValMutator(Rng& rng, int tgt, int var = -1) : r(rng), target(tgt), variant(var) {}
   bool candidate(const Sch& s) const {
     if (s.k == K::STR) return s.bits > 8;
     if (s.k == K::BIN) return s.bits > 8 || s.len != Len::VAR;
@@ -90,14 +90,14 @@ struct ValMutator {
       int mode = (int)r.below(3);
       if (w > 1 && (mode == 0 || s.len == Len::VAR)) { size_t k = 1 + r.below(w - 1); if (s.len == Len::CAP && v.bytes.size() + k > s.n * w) { v.bytes.resize(v.bytes.size() >= w ? v.bytes.size() - w : 0); } v.bytes.append(k, 'y'); desc = fmt("BIN(elem%zu) byte length not a multiple (+%zu)", w, k); return; }
       if (s.len == Len::FIXED) { if (mode == 1 || v.bytes.empty()) { v.bytes.append(w, 'z'); desc = "fixed BIN one element too many"; } else { v.bytes.resize(v.bytes.size() - w); desc = "fixed BIN one element short"; } return; }
-      if (s.len == Len::CAP) { size_t extra = (r.below(2) ? 1 : 1 + r.below(200)); int mode2 = (int)r.below(4); if (mode2 == 1) extra = 256 - s.n % 256 + r.below(s.n + 1); else if (mode2 == 2) extra = 65536 - s.n % 65536 + r.below(s.n + 1); v.bytes.assign((s.n + extra) * w, 'c'); desc = fmt("logical buffer BIN length capacity+%zu", extra); return; }
+      if (s.len == Len::CAP) { size_t extra = (r.below(2) ? 1 : 1 + r.below(200)); int mode2 = variant >= 0 ? variant % 4 : (int)r.below(4); if (mode2 == 1) extra = 256 - s.n % 256 + r.below(s.n + 1); else if (mode2 == 2) extra = 65536 - s.n % 65536 + r.below(s.n + 1); v.bytes.assign((s.n + extra) * w, 'c'); desc = fmt("logical buffer BIN length capacity+%zu", extra); return; }
     }
     if (s.k == K::ARY) {
       Rng r2(r.next()); Gen g(r2);
       if (s.len == Len::FIXED) { if (r.below(2) || v.kids.empty()) { v.kids.push_back(g.gen(s.kids[0], 2)); desc = "fixed ARY one element too many"; } else { v.kids.pop_back(); desc = "fixed ARY one element short"; } return; }
       if (s.len == Len::CAP) {
         // counts just above the capacity, and counts that wrap back into the capacity when narrowed to an 8/16-bit size member
-        size_t extra = 1 + r.below(3); int mode = (int)r.below(4); K ek = s.kids[0].k; bool small_elem = ek == K::UINT || ek == K::INT || ek == K::BOOL || ek == K::CHAR || ek == K::F32 || ek == K::F64;
+        size_t extra = 1 + r.below(3); int mode = variant >= 0 ? variant % 4 : (int)r.below(4); K ek = s.kids[0].k; bool small_elem = ek == K::UINT || ek == K::INT || ek == K::BOOL || ek == K::CHAR || ek == K::F32 || ek == K::F64;
         size_t target = s.n + extra;
         if (mode == 1) target = 256 + r.below(s.n + 1); else if (mode == 2 && small_elem) target = 65536 + r.below(s.n + 1);
         if (target <= s.n) target = s.n + extra;
